@@ -191,8 +191,37 @@ func (db *DB) Backup(dir string) error {
 			}
 		}
 	}
+	// 目标目录可能保留着更早一次备份的文件, 其中源目录已不存在的数据文件和 hint 文件需先清除:
+	// merge 结果被采用后旧数据文件已从源目录删除, 若仍残留在备份目录, 打开备份时其中的过期记录会覆盖 merge 后的数据
+	if err := removeStaleBackupFiles(db.options.DirPath, dir); err != nil {
+		return err
+	}
 	// 将数据目录中的数据文件拷贝到指定目录中
 	return utils.CopyDir(db.options.DirPath, dir, []string{datafile.FileLockSuffix})
+}
+
+// 删除备份目录中源目录已不存在的数据文件和 hint 文件
+func removeStaleBackupFiles(src, dest string) error {
+	entries, err := os.ReadDir(dest)
+	if err != nil {
+		if os.IsNotExist(err) {
+			return nil
+		}
+		return err
+	}
+	for _, entry := range entries {
+		name := entry.Name()
+		if entry.IsDir() ||
+			!(strings.HasSuffix(name, datafile.DataFileSuffix) || strings.HasSuffix(name, datafile.HintFileSuffix)) {
+			continue
+		}
+		if _, err := os.Stat(filepath.Join(src, name)); os.IsNotExist(err) {
+			if err := os.Remove(filepath.Join(dest, name)); err != nil {
+				return err
+			}
+		}
+	}
+	return nil
 }
 
 // Put 新增元素
